@@ -1404,7 +1404,11 @@ class ComputeGraph(MultiDiGraph):
             if type(n) is ComputeVar:
                 node_names.append(node)
             else:
-                node_names.append(list(self._get_inputs(node))[-1])
+                # lhs-indexing operation `index(var, idx)`: the variable that is written is the first argument of the
+                # indexing call (the order of the graph predecessors depends on the names of var and idx)
+                inputs = list(self._get_inputs(node))
+                written = str(n.expr.args[0]) if getattr(n.expr, 'args', None) else None
+                node_names.append(written if written in inputs else inputs[-1])
             node_keys.append(node)
 
         keys, values, defined_vars, undefined_vars = [], [], [], []
